@@ -112,6 +112,7 @@ WithDefect(k, member, cls) == [k EXCEPT !.defect = <<<<member, cls>>>>, !.bad = 
 \* the JWK-import matrices enumerate DOMAIN AsymBase and a JWK has no such type.
 \* (rsa2048z: an rsaEncryption key whose private exponent is one octet shorter than the modulus - for the tools)
 ExtraBase == [ rsapss2048a |-> [kty |-> "RSA", bits |-> 2048, crv |-> NONE], rsa2048z |-> [kty |-> "RSA", bits |-> 2048, crv |-> NONE],
+               rsa2048e |-> [kty |-> "RSA", bits |-> 2048, crv |-> NONE],      \* public exponent of 72 bits
                rsa9216a |-> [kty |-> "RSA", bits |-> 9216, crv |-> NONE] ]     \* larger than any size a provider may have thought of
 PssBases == {"rsapss2048a"}
 BaseRec(b) == IF b \in DOMAIN ExtraBase THEN ExtraBase[b] ELSE AsymBase[b]
